@@ -9,6 +9,29 @@
     X(const unsigned char *, g_hook_ptr) X(size_t, g_hook_len) X(const void *, g_hook_tx) X(int, g_hook_rc) X(int, g_hook_last)
 /* largest stream offset / message length for which the int64 counters provably do not wrap in one call */
 #define OFFMAX ((int64_t) 1 << 62)
+/* request-side state set (function addresses; used by the driver's loop invariant) */
+#define IS_REQ_STATE(f) ((f) == htp_connp_REQ_IDLE || (f) == htp_connp_REQ_LINE || (f) == htp_connp_REQ_PROTOCOL || (f) == htp_connp_REQ_HEADERS || \
+    (f) == htp_connp_REQ_CONNECT_CHECK || (f) == htp_connp_REQ_CONNECT_WAIT_RESPONSE || (f) == htp_connp_REQ_CONNECT_PROBE_DATA || \
+    (f) == htp_connp_REQ_BODY_DETERMINE || (f) == htp_connp_REQ_BODY_IDENTITY || (f) == htp_connp_REQ_BODY_CHUNKED_LENGTH || \
+    (f) == htp_connp_REQ_BODY_CHUNKED_DATA || (f) == htp_connp_REQ_BODY_CHUNKED_DATA_END || (f) == htp_connp_REQ_FINALIZE || \
+    (f) == htp_connp_REQ_IGNORE_DATA_AFTER_HTTP_0_9)
+#define IS_RES_STATE(f) ((f) == htp_connp_RES_IDLE || (f) == htp_connp_RES_LINE || (f) == htp_connp_RES_HEADERS || (f) == htp_connp_RES_BODY_DETERMINE || \
+    (f) == htp_connp_RES_BODY_IDENTITY_CL_KNOWN || (f) == htp_connp_RES_BODY_IDENTITY_STREAM_CLOSE || (f) == htp_connp_RES_BODY_CHUNKED_LENGTH || \
+    (f) == htp_connp_RES_BODY_CHUNKED_DATA || (f) == htp_connp_RES_BODY_CHUNKED_DATA_END || (f) == htp_connp_RES_FINALIZE)
+/* cursor order, usable in loop invariants */
+#define CUR_IN_CURSOR(c) ((c)->in_current_len >= 0 && (c)->in_current_len <= CHUNK_CAP && \
+    0 <= (c)->in_current_consume_offset && (c)->in_current_consume_offset <= (c)->in_current_read_offset && \
+    (c)->in_current_read_offset <= (c)->in_current_len && \
+    0 <= (c)->in_current_receiver_offset && (c)->in_current_receiver_offset <= (c)->in_current_read_offset && \
+    (c)->in_stream_offset >= 0)
+#define CUR_OUT_CURSOR(c) ((c)->out_current_len >= 0 && (c)->out_current_len <= CHUNK_CAP && \
+    0 <= (c)->out_current_consume_offset && (c)->out_current_consume_offset <= (c)->out_current_read_offset && \
+    (c)->out_current_read_offset <= (c)->out_current_len && \
+    0 <= (c)->out_current_receiver_offset && (c)->out_current_receiver_offset <= (c)->out_current_read_offset && \
+    (c)->out_stream_offset >= 0)
+/* coarse frame of the shared state contract: the parser object itself (fields that must survive are re-stated in RQ_COMMON_POST) */
+#define RQ_STATE_FRAME(c) g_state_calls, __CPROVER_object_whole(c)
+#define REQ_TX_INV(c) (((c)->in_state != htp_connp_REQ_IDLE && (c)->in_state != htp_connp_REQ_IGNORE_DATA_AFTER_HTTP_0_9) ==> (c)->in_tx != NULL)
 #ifndef CHUNK_CAP
 #define CHUNK_CAP 4096
 #endif
